@@ -140,8 +140,8 @@ type Record struct {
 	Off     int64 // offset of the opcode byte (file offset, or offset inside the decompressed chunk)
 	BodyLen uint64
 	Body    []byte
-	Used    int   // bytes of Body consumed by the declared fields (rest is extension padding)
-	Chunk   int   // index into File.Records of the enclosing chunk, -1 at top level
+	Used    int // bytes of Body consumed by the declared fields (rest is extension padding)
+	Chunk   int // index into File.Records of the enclosing chunk, -1 at top level
 	V       any
 	Fields  []Field // field map (offsets relative to the same space as Off)
 }
